@@ -210,3 +210,107 @@ def run_destroy_guard(prog, ctx=None):
     if n == 0:
         raise Broken("mpt_node_clear: destroy call not found")
     return res
+
+
+def _natural_loops(f):
+    """head -> set of blocks"""
+    dom = f.dominators()
+    loops = {}
+    for bid, b in f.blocks.items():
+        for s in b.succ:
+            if s is not None and s in dom[bid]:
+                body = loops.setdefault(s, {s})
+                stack = [bid]
+                while stack:
+                    x = stack.pop()
+                    if x in body:
+                        continue
+                    body.add(x)
+                    stack.extend(f.blocks[x].preds)
+    return loops
+
+
+def _list_parent_loops(f):
+    """texts A for which f has a loop `for (X = ..; X; X = X->next) X->parent = A`: [(A text, X id)]"""
+    out = []
+    loops = _natural_loops(f)
+    for h, body in loops.items():
+        steps = set()
+        stores = []
+        for bid in body:
+            for e in f.blocks[bid].el:
+                for n in walk_own(e):
+                    if n.get("k") == "bin" and n.get("op") == "=":
+                        l = strip(n["a"], lvalue_to_rvalue=False)
+                        r = strip(n["b"], all_casts=True)
+                        if l.get("k") == "ref" and "id" in l["d"] and r.get("k") == "mem" and r.get("f") == "next":
+                            rb = strip(r["b"], all_casts=True)
+                            if rb.get("k") == "ref" and rb["d"].get("id") == l["d"]["id"]:
+                                steps.add(l["d"]["id"])
+                        if l.get("k") == "mem" and l.get("f") == "parent":
+                            lb = strip(l["b"], all_casts=True)
+                            if lb.get("k") == "ref" and "id" in lb["d"]:
+                                stores.append((lb["d"]["id"], strip(n["b"], all_casts=True)))
+        for xid, rhs in stores:
+            if xid in steps:
+                out.append((rhs, xid))
+    return out
+
+
+def run_childlist(prog, ctx=None):
+    """CHILDLIST: where the result of a function that builds a sibling list (it links nodes in a loop) becomes `A->children`, every
+    node of that list gets A as parent: a loop that walks `->next` and stores `->parent = A` (here, or in a helper handed A)."""
+    res = Result("CHILDLIST")
+
+    def producer(g):
+        # builds a list: has a loop and links siblings (stores ->next / calls a gnode link primitive) and returns a node pointer
+        if g.nocfg or not _natural_loops(g):
+            return False
+        for b, i, n in g.walk_all():
+            if n.get("k") == "bin" and n.get("op") == "=":
+                l = strip(n["a"], lvalue_to_rvalue=False)
+                if l.get("k") == "mem" and l.get("f") == "next":
+                    return True
+            if n.get("k") == "call" and (callee_name(n) or "").startswith(("mpt_gnode_after", "mpt_gnode_before", "mpt_gnode_add", "mpt_gnode_insert")):
+                return True
+        return False
+
+    for f in sorted(prog.functions.values(), key=lambda f: (f.file, f.line)):
+        if f.nocfg:
+            continue
+        for b, i, e in f.elements():
+            for n in walk_own(e):
+                if not (n.get("k") == "bin" and n.get("op") == "="):
+                    continue
+                l = strip(n["a"], lvalue_to_rvalue=False)
+                if not (l.get("k") == "mem" and l.get("f") == "children" and l.get("rec", "").split("::")[-1] in ("mpt_node", "node")):
+                    continue
+                V = strip(n["b"], all_casts=True)
+                if V.get("k") != "call":
+                    continue
+                gs = [g for g in prog.resolve_call(f, V) if producer(g)]
+                if not gs:
+                    continue
+                A = norm(show(strip(l["b"], all_casts=True), f))
+                ok = any(norm(show(rhs, f)) == A for rhs, xid in _list_parent_loops(f))
+                if not ok:
+                    # a helper that is handed A and runs the loop for its parameter
+                    for b2, i2, c in f.elements():
+                        if c.get("k") != "call" or not c.get("fn"):
+                            continue
+                        for h in prog.resolve_call(f, c):
+                            if h.nocfg:
+                                continue
+                            pids = {p["id"]: k for k, p in enumerate(h.params)}
+                            for rhs, xid in _list_parent_loops(h):
+                                if rhs.get("k") == "ref" and rhs["d"].get("id") in pids:
+                                    k = pids[rhs["d"]["id"]]
+                                    if k < len(c.get("args", [])) and norm(show(strip(c["args"][k], all_casts=True), f)) == A:
+                                        ok = True
+                res.ob("%s:%s" % (f.qn, norm(show(n, f))[:70]), ok, f, n.get("l", f.line),
+                       "" if ok else "%s: the list built by %s becomes the children of %s, but no loop over its `next` chain sets `->parent = %s` (only the nodes reached that way name their parent)" % (
+                           f.qn, gs[0].qn, A, A))
+                res.count("sites")
+    if res.counters.get("sites", 0) < 2:
+        raise Broken("CHILDLIST: only %d sites where a built list becomes a node's children" % res.counters.get("sites", 0))
+    return res
